@@ -16,4 +16,10 @@ DevFilter == {"FilterInPlace"}
 DevCollect == {"CollectAdopt"}
 DevCollectNE == {"CollectAdoptNonEmpty"}
 DevConcat == {"ConcatAdopt"}
+
+\* refinement: every step of the machine without deviations is a step of the abstract machine GoHeapAbs (a view of an existing
+\* array, or a view of a newly allocated one), whose Purity is proved for any size in GoHeapAbsProof
+Abs == INSTANCE GoHeapAbs
+AbsRefines == [][Abs!AbsNext]_<<heap, pool>>
+AbsInitHolds == Abs!AbsInit
 =============================================================================
